@@ -14,7 +14,19 @@ module N :
 
   val compare : coq_N -> coq_N -> comparison
 
+  val eqb : coq_N -> coq_N -> bool
+
   val leb : coq_N -> coq_N -> bool
 
+  val ltb : coq_N -> coq_N -> bool
+
+  val min : coq_N -> coq_N -> coq_N
+
   val pos_div_eucl : positive -> coq_N -> coq_N * coq_N
+
+  val coq_land : coq_N -> coq_N -> coq_N
+
+  val to_nat : coq_N -> nat
+
+  val of_nat : nat -> coq_N
  end
